@@ -447,7 +447,7 @@ class C16(core.Check):
             en = r.choice([1, 47, 48, 49, 4096])
             ew = r.choice(["start", "middle", "end", r.randrange(0, size), 8192 + r.choice([-1, 0, 1]), 32768 + r.choice([-1, 0, 1])])
             out.append({"i": i, "content": [kind, size, i], "cfg": cfg, "segs": segs, "boundary_segs": r.random() < (0.5 if self.quick else 0.8),
-                        "edit": [ek, ew, en], "dict": r.choice([None, None, 2000]) if cfg["comp"] == 2 else None, "zh": ctx["zh"]})
+                        "edit": [ek, ew, en], "dict": r.choice([None, None, 2000]) if cfg["comp"] == 2 else r.choice([None, None, None, 3000]), "zh": ctx["zh"]})
         # hit-dense contents: crafted rolling-hash hits around the minimum / maximum size and in each other's shadow
         if ctx.get("table"):
             nd = 48 if self.quick else 1500
@@ -465,7 +465,8 @@ class C16(core.Check):
                 if cfg["comp"] == 0 and size <= 120000:
                     segs.append([1])
                 out.append({"i": i, "content": ["dense:" + layout, size, i], "dense": {"layout": layout, "size": size, "table": ctx["table"]}, "cfg": cfg, "segs": segs,
-                            "boundary_segs": True, "edit": [r.choice(["insert", "delete", "replace"]), r.randrange(0, size), r.choice([1, 47, 48, 49])], "dict": None, "zh": ctx["zh"]})
+                            "boundary_segs": True, "edit": [r.choice(["insert", "delete", "replace"]), r.randrange(0, size), r.choice([1, 47, 48, 49])],
+                            "dict": r.choice([None, None, 4096, 300]), "zh": ctx["zh"]})
         # the zck tool: split strings against its 32 KiB read blocks, read() sizes, shifted contents
         nc = 24 if self.quick else 600
         for j in range(nc):
